@@ -124,9 +124,9 @@ Lemma pc_goto r x : pc_of (goto r x) = x. Proof. reflexivity. Qed.
 
 (* every field of the shared state that a projection can see *)
 Ltac simp_sh :=
-  cbn [files_of stamp lockfile locks next_ino clock netreqs set_files set_stamp set_locks set_lockfile
-       create_lockfile set_clock add_net
-       pc_of kind_of tries populated cache_err ts fd goto set_err set_pop set_ts inc_tries set_fd] in *.
+  cbn [files_of stamp lockfile locks next_ino clock netreqs memos set_files set_stamp set_locks set_lockfile
+       create_lockfile set_clock add_net set_memos
+       pc_of kind_of tries populated cache_err ts fd nreq goto set_err set_pop set_ts inc_tries set_fd inc_req] in *.
 
 Lemma files_release p d s : files_of (release p d s) = files_of s.
 Proof.
@@ -238,7 +238,7 @@ Ltac case_step H :=
 Lemma pstep_frame c p s r s' r' :
   fixed_pc (pc_of r) = true -> pstep c p s r = (s', r') -> frame p s s'.
 Proof.
-  intros Hf H. unfold pstep, acquire_step, opened in H.
+  intros Hf H. unfold pstep, acquire_step, opened, remember, within_for, memo_written in H.
   destruct (pc_of r) eqn:Epc; try discriminate Hf; case_step H;
     try apply frame_refl; try apply frame_tmp; try apply frame_replace;
     try (apply frame_same; simp_sh; rewrite ?files_leave; reflexivity).
@@ -307,10 +307,12 @@ Lemma below_0 m : below m 0.
 Proof. intros g Hg. lia. Qed.
 
 Lemma pstep_fixed c p s r s' r' :
+  cleanup_outside_lock c = false ->
   vers_good c (files_of s) -> Jfix c p s r -> pstep c p s r = (s', r') ->
   vers_good c (files_of s') /\ Jfix c p s' r'.
 Proof.
-  intros HA (J1 & J3 & J4 & J5) H. unfold pstep, after_chunk, lookup_fixed, acquire_step, opened in H.
+  intros Hc HA (J1 & J3 & J4 & J5) H. unfold pstep, after_chunk, lookup_fixed, acquire_step, opened, remember, within_for, memo_written in H.
+  rewrite Hc in H.
   destruct (pc_of r) eqn:Epc; try discriminate J1; cbn [holding tmp_ok pop_ok] in J4, J5;
     try match type of J4 with _ /\ _ => destruct J4 as [J4 J4'] end;
     unfold cur_content in H; try rewrite J4 in H;
@@ -334,6 +336,7 @@ Proof.
 Qed.
 
 Definition fixed_inv (c : cfg) (w : world) : Prop :=
+  cleanup_outside_lock c = false /\   (* nobody removes temporary files of other processes *)
   vers_good c (files_of (sh w)) /\
   forall p r, nth_error (procs w) p = Some r -> Jfix c p (sh w) r.
 
@@ -346,10 +349,10 @@ Qed.
 
 Lemma fixed_inv_step c w e : fixed_inv c w -> fixed_inv c (step c w e).
 Proof.
-  intros [HA HJ]. destruct e as [p|p|d]; simpl.
+  intros (Hc & HA & HJ). split; [exact Hc|]. destruct e as [p|p|d]; simpl.
   - destruct (nth_error (procs w) p) as [r|] eqn:E; [|split; auto].
     destruct (pstep c p (sh w) r) as [s' r'] eqn:Ep.
-    destruct (pstep_fixed _ _ _ _ _ _ HA (HJ _ _ E) Ep) as [HA' HJ'].
+    destruct (pstep_fixed _ _ _ _ _ _ Hc HA (HJ _ _ E) Ep) as [HA' HJ'].
     pose proof (pstep_frame _ _ _ _ _ _ (proj1 (HJ _ _ E)) Ep) as Hfr.
     split; simpl; auto. intros q rq Hq. rewrite nth_error_upd in Hq.
     destruct (Nat.eqb p q) eqn:Epq.
@@ -382,9 +385,9 @@ Proof.
 Qed.
 
 Lemma fixed_inv_init c t ks :
-  forallb is_fixed_kind ks = true -> fixed_inv c (init t ks).
+  cleanup_outside_lock c = false -> forallb is_fixed_kind ks = true -> fixed_inv c (init t ks).
 Proof.
-  intro Hk. split; simpl.
+  intros Hc Hk. split; [exact Hc|]. split; simpl.
   - intros f x H. discriminate.
   - intros p r Hr. apply nth_error_map_start in Hr. destruct Hr as (k & -> & Hin).
     rewrite forallb_forall in Hk. specialize (Hk _ Hin).
@@ -393,10 +396,10 @@ Qed.
 
 (* every file whose name matches the version pattern is the complete installed file *)
 Lemma fixed_no_torn_visible c t ks evs f x :
-  forallb is_fixed_kind ks = true ->
+  cleanup_outside_lock c = false -> forallb is_fixed_kind ks = true ->
   ver (run c (init t ks) evs) f = Some x -> x = good (nchunks c).
 Proof.
-  intros Hk H. destruct (fixed_inv_run c evs _ (fixed_inv_init c t ks Hk)) as [HA _].
+  intros Hc Hk H. destruct (fixed_inv_run c evs _ (fixed_inv_init c t ks Hc Hk)) as (_ & HA & _).
   eapply HA. exact H.
 Qed.
 
@@ -456,7 +459,7 @@ Lemma pstep_lock c p s r s' r' :
   pstep c p s r = (s', r') -> Jlock p s' r' /\ lframe p s s'.
 Proof.
   intros Hu Hf [A B] H.
-  unfold pstep, acquire_step, opened, lock_ino, leave, after_chunk, lookup_fixed in H. rewrite Hu in H.
+  unfold pstep, acquire_step, opened, lock_ino, leave, after_chunk, lookup_fixed, remember, within_for, memo_written in H. rewrite Hu in H.
   destruct (pc_of r) eqn:Epc; try discriminate Hf; cbn [holding] in A.
   all: case_step H; simp_sh; rewrite ?Epc.
   all: split; [split|].
@@ -481,7 +484,7 @@ Definition lock_inv (w : world) : Prop :=
 Lemma lock_inv_step c w e :
   unlink_on_release c = false -> fixed_inv c w -> lock_inv w -> lock_inv (step c w e).
 Proof.
-  intros Hu [_ HJ] HL. destruct e as [p|p|d]; simpl; auto.
+  intros Hu (_ & _ & HJ) HL. destruct e as [p|p|d]; simpl; auto.
   - destruct (nth_error (procs w) p) as [r|] eqn:E; auto.
     destruct (pstep c p (sh w) r) as [s' r'] eqn:Ep.
     destruct (pstep_lock _ _ _ _ _ _ Hu (proj1 (HJ _ _ E)) (HL _ _ E) Ep) as [HL' Hfr].
@@ -519,13 +522,13 @@ Qed.
    both hold the advisory lock on the file they have open, every open descriptor refers to the file
    that currently carries the name, and a file has at most one lock holder. *)
 Lemma fixed_lock_exclusive c t ks evs p q rp rq :
-  unlink_on_release c = false -> forallb is_fixed_kind ks = true ->
+  unlink_on_release c = false -> cleanup_outside_lock c = false -> forallb is_fixed_kind ks = true ->
   nth_error (procs (run c (init t ks) evs)) p = Some rp ->
   nth_error (procs (run c (init t ks) evs)) q = Some rq ->
   holding (pc_of rp) = true -> holding (pc_of rq) = true -> p = q.
 Proof.
-  intros Hu Hk Hp Hq Hhp Hhq.
-  pose proof (lock_inv_run c evs _ Hu (fixed_inv_init c t ks Hk) (lock_inv_init t ks)) as HL.
+  intros Hu Hc Hk Hp Hq Hhp Hhq.
+  pose proof (lock_inv_run c evs _ Hu (fixed_inv_init c t ks Hc Hk) (lock_inv_init t ks)) as HL.
   destruct (HL _ _ Hp) as [A B]. destruct (HL _ _ Hq) as [A' B'].
   destruct (A Hhp) as (i & Hfd & Hl). destruct (A' Hhq) as (j & Hfd' & Hl').
   pose proof (B _ Hfd) as H1. pose proof (B' _ Hfd') as H2. congruence.
@@ -534,12 +537,12 @@ Qed.
 (* a process that went through a whole population leaves every bundled file
    present and complete, whatever the others do afterwards *)
 Lemma fixed_finished_population c t ks evs p r f :
-  forallb is_fixed_kind ks = true ->
+  cleanup_outside_lock c = false -> forallb is_fixed_kind ks = true ->
   nth_error (procs (run c (init t ks) evs)) p = Some r -> populated r = true ->
   f < nfiles c -> ver (run c (init t ks) evs) f = Some (good (nchunks c)).
 Proof.
-  intros Hk Hp Hpop Hf.
-  destruct (fixed_inv_run c evs _ (fixed_inv_init c t ks Hk)) as [HA HJ].
+  intros Hc Hk Hp Hpop Hf.
+  destruct (fixed_inv_run c evs _ (fixed_inv_init c t ks Hc Hk)) as (_ & HA & HJ).
   destruct (HJ _ _ Hp) as (_ & J3 & _). specialize (J3 Hpop f Hf).
   unfold ver. unfold has in J3. destruct (fget _ (Ver f)) as [x|] eqn:E; [|discriminate].
   f_equal. eapply HA. exact E.
@@ -553,9 +556,9 @@ Proof.
 Qed.
 
 Lemma safe_move_atomic c t ks evs f x :
-  forallb is_download_kind ks = true ->
+  cleanup_outside_lock c = false -> forallb is_download_kind ks = true ->
   ver (run c (init t ks) evs) f = Some x -> x = good (nchunks c).
-Proof. intro Hk. apply fixed_no_torn_visible. apply download_kinds_fixed. exact Hk. Qed.
+Proof. intros Hc Hk. apply fixed_no_torn_visible; [exact Hc|]. apply download_kinds_fixed. exact Hk. Qed.
 
 (* ---- the repaired loader only ever ends by returning the bundled schema ---- *)
 
@@ -568,7 +571,7 @@ Definition lf_pc (x : pc) : bool :=
 
 Lemma pstep_kind c p s r : kind_of (snd (pstep c p s r)) = kind_of r.
 Proof.
-  destruct r as [k x tr po ce tt dd]. unfold pstep, after_chunk, lookup_fixed, acquire_step. simp_sh. destruct x;
+  destruct r as [k x tr po ce tt dd nr]. unfold pstep, after_chunk, lookup_fixed, acquire_step, remember, within_for, memo_written. simp_sh. destruct x;
     repeat match goal with
            | |- context [if ?b then _ else _] => destruct b
            | |- context [match ?x with _ => _ end] => destruct x
@@ -576,13 +579,17 @@ Proof.
 Qed.
 
 Lemma pstep_lf c p s r s' r' v :
+  cleanup_outside_lock c = false -> Jfix c p s r ->
   vers_good c (files_of s) -> kind_of r = KLoadFixed v -> v < nfiles c ->
   lf_pc (pc_of r) = true -> pstep c p s r = (s', r') -> lf_pc (pc_of r') = true.
 Proof.
-  intros HA Hk Hv Hl H. apply Nat.ltb_lt in Hv.
-  unfold pstep, after_chunk, lookup_fixed, acquire_step in H. rewrite Hk in H. cbn [target] in H. rewrite ?Hv in H.
-  destruct (pc_of r) eqn:Epc; try discriminate Hl.
+  intros Hc (_ & _ & J4 & _) HA Hk Hv Hl H. apply Nat.ltb_lt in Hv.
+  unfold pstep, after_chunk, lookup_fixed, acquire_step, remember, within_for, memo_written in H.
+  rewrite Hk, Hc in H. cbn [target] in H. rewrite ?Hv in H.
+  destruct (pc_of r) eqn:Epc; try discriminate Hl; cbn [tmp_ok] in J4.
   all: try (case_step H; simp_sh; rewrite ?Epc; reflexivity).
+  - (* FReplace: the temporary file is there *)
+    rewrite J4 in H. inversion H. reflexivity.
   - (* FRead *)
     destruct (fget (files_of s) (Ver v)) as [x|] eqn:E.
     + rewrite (HA _ _ E), content_eqb_refl in H. inversion H. reflexivity.
@@ -596,14 +603,14 @@ Definition lf_inv (c : cfg) (w : world) : Prop :=
 
 Lemma lf_inv_step c w e : fixed_inv c w -> lf_inv c w -> lf_inv c (step c w e).
 Proof.
-  intros [HA _] HL. destruct e as [p|p|d]; simpl; auto.
+  intros (Hc & HA & HJ) HL. destruct e as [p|p|d]; simpl; auto.
   - destruct (nth_error (procs w) p) as [r|] eqn:E; auto.
     destruct (pstep c p (sh w) r) as [s' r'] eqn:Ep.
     intros q rq v Hq Hk Hv. simpl in Hq. rewrite nth_error_upd in Hq.
     destruct (Nat.eqb p q) eqn:Epq.
     + apply Nat.eqb_eq in Epq. subst q. rewrite E in Hq. inversion Hq. subst rq.
       pose proof (pstep_kind c p (sh w) r) as Hkk. rewrite Ep in Hkk. simpl in Hkk.
-      rewrite Hkk in Hk. eapply pstep_lf; eauto.
+      rewrite Hkk in Hk. eapply (pstep_lf c p (sh w) r s' r' v); eauto.
     + eapply HL; eauto.
   - destruct (nth_error (procs w) p) as [r|] eqn:E; auto.
     destruct (is_done (pc_of r)) eqn:Ed; auto.
@@ -629,12 +636,12 @@ Qed.
 (* whenever the repaired loader of a bundled version has finished, it has
    returned the bundled schema: no failure of any kind is reachable *)
 Lemma fixed_load_succeeds c t ks evs p r v o :
-  forallb is_fixed_kind ks = true ->
+  cleanup_outside_lock c = false -> forallb is_fixed_kind ks = true ->
   nth_error (procs (run c (init t ks) evs)) p = Some r ->
   kind_of r = KLoadFixed v -> v < nfiles c -> pc_of r = Done o -> o = OLoaded.
 Proof.
-  intros Hk Hr Hkind Hv Hpc.
-  destruct (fixed_both_run c evs _ (fixed_inv_init c t ks Hk) (lf_inv_init c t ks)) as [_ HL].
+  intros Hc Hk Hr Hkind Hv Hpc.
+  destruct (fixed_both_run c evs _ (fixed_inv_init c t ks Hc Hk) (lf_inv_init c t ks)) as [_ HL].
   specialize (HL _ _ _ Hr Hkind Hv). rewrite Hpc in HL. destruct o; try discriminate HL. reflexivity.
 Qed.
 
@@ -691,24 +698,82 @@ Proof.
     rewrite lget_lset, Nat.eqb_refl; reflexivity.
 Qed.
 
-(* code as it is AND repaired: cache_xml_versions entered within the refresh interval
-   does nothing -- no file, stamp or lock change, no network request -- and
-   reports the cache error (-1) *)
+(* code as it is AND repaired: cache_xml_versions entered within the refresh interval of the time
+   recorded in the SHARED last_update.txt does nothing -- no file, stamp or lock change, no network
+   request -- and reports the cache error (-1) *)
 Lemma refresh_within_interval_skipped c w p r t :
+  memo_stamp c = false ->
   nth_error (procs w) p = Some r ->
   (pc_of r = LFallback \/ pc_of r = XEnter) ->
   stamp (sh w) = StampAt t -> clock (sh w) - t < threshold c ->
   exists r', proc_at (step c w (Run p)) p = Some r' /\
-             sh (step c w (Run p)) = sh w /\ cache_err r' = true /\
+             sh (step c w (Run p)) = sh w /\ cache_err r' = true /\ nreq r' = nreq r /\
              pc_of r' = match pc_of r, kind_of r with
                         | LFallback, KLoad _ => LRecheck
                         | _, _ => Done OSkipped end.
 Proof.
-  intros Hr Hpc Hst Hin. apply Nat.ltb_lt in Hin.
+  intros Hm Hr Hpc Hst Hin. apply Nat.ltb_lt in Hin.
   exists (snd (pstep c p (sh w) r)). split; [apply proc_at_step_run; exact Hr|].
-  rewrite (step_run_at _ _ _ _ Hr). simpl.
-  unfold pstep, within. destruct Hpc as [-> | ->]; rewrite Hst, Hin; simpl; auto;
+  rewrite (step_run_at _ _ _ _ Hr). cbn [sh].
+  unfold pstep, within_for, remember, within. rewrite Hm.
+  destruct Hpc as [-> | ->]; rewrite Hst, Hin; cbn [fst snd]; simp_sh;
   repeat split; auto; destruct (kind_of r); reflexivity.
+Qed.
+
+(* a finished call never changes again, whatever is scheduled afterwards *)
+Lemma proc_done_stable c evs : forall w p r,
+  nth_error (procs w) p = Some r -> is_done (pc_of r) = true ->
+  nth_error (procs (run c w evs)) p = Some r.
+Proof.
+  induction evs as [|e evs IH]; intros w p r Hr Hd; simpl; auto.
+  apply IH; auto. destruct e as [q|q|d]; simpl; auto.
+  - destruct (nth_error (procs w) q) as [rq|] eqn:Eq; auto.
+    destruct (pstep c q (sh w) rq) as [s' r'] eqn:Ep. simpl. rewrite nth_error_upd.
+    destruct (Nat.eqb q p) eqn:E; auto. apply Nat.eqb_eq in E. subst q.
+    rewrite Hr in Eq. inversion Eq. subst rq. rewrite Hr. f_equal.
+    unfold pstep in Ep. destruct (pc_of r); try discriminate Hd. inversion Ep. reflexivity.
+  - destruct (nth_error (procs w) q) as [rq|] eqn:Eq; auto.
+    destruct (is_done (pc_of rq)) eqn:Ed; auto. simpl. rewrite nth_error_upd.
+    destruct (Nat.eqb q p) eqn:E; auto. apply Nat.eqb_eq in E. subst q.
+    rewrite Hr in Eq. inversion Eq. subst rq. congruence.
+Qed.
+
+(* ... over multi-process schedules: whatever any process does afterwards, a refresh that was
+   entered within the interval of the shared stamp has ended as "skipped" and has made no request *)
+Lemma refresh_skipped_all_schedules c w p r t evs :
+  memo_stamp c = false ->
+  nth_error (procs w) p = Some r ->
+  (pc_of r = XEnter \/ (pc_of r = LFallback /\ kind_of r = KRefresh)) ->
+  stamp (sh w) = StampAt t -> clock (sh w) - t < threshold c ->
+  netreqs (sh (step c w (Run p))) = netreqs (sh w) /\
+  exists r', nth_error (procs (run c w (Run p :: evs))) p = Some r' /\
+             pc_of r' = Done OSkipped /\ cache_err r' = true /\ nreq r' = nreq r.
+Proof.
+  intros Hm Hr Hpc Hst Hin.
+  destruct (refresh_within_interval_skipped c w p r t Hm Hr) as (r' & Hat & Hsh & He & Hn & Hpc'); auto.
+  { destruct Hpc as [H|[H _]]; auto. }
+  split; [rewrite Hsh; reflexivity|].
+  exists r'. split; [|repeat split; auto].
+  - simpl. apply proc_done_stable; [exact Hat|]. rewrite Hpc'.
+    destruct Hpc as [Hx | [Hx Hy]]; rewrite Hx; try rewrite Hy; reflexivity.
+  - rewrite Hpc'. destruct Hpc as [Hx | [Hx Hy]]; rewrite Hx; try rewrite Hy; reflexivity.
+Qed.
+
+(* history theorem: what CacheLock.__enter__ decides is a function of the shared directory state
+   (stamp, clock) alone -- two processes (or two calls of one process) with whatever different
+   pasts take the same decision and leave the same shared state *)
+Lemma enter_decision_history_free c p s r1 r2 :
+  memo_stamp c = false -> pc_of r1 = pc_of r2 -> kind_of r1 = kind_of r2 ->
+  (pc_of r1 = XEnter \/ pc_of r1 = FEnter \/ pc_of r1 = PEnter \/ pc_of r1 = LFallback) ->
+  fst (pstep c p s r1) = fst (pstep c p s r2) /\
+  pc_of (snd (pstep c p s r1)) = pc_of (snd (pstep c p s r2)).
+Proof.
+  intros Hm Hpc Hk Hc. unfold pstep, within_for, remember. rewrite Hm, <- Hpc, <- Hk.
+  destruct Hc as [Hx | [Hx | [Hx | Hx]]]; rewrite Hx; cbn [fst snd];
+    repeat match goal with
+           | |- context [if ?b then _ else _] => destruct b
+           | |- context [match ?x with _ => _ end] => destruct x
+           end; split; reflexivity.
 Qed.
 
 (* outside the interval the refresh does go to the network *)
@@ -788,7 +853,7 @@ Lemma pstep_cur c p s r s' r' :
   | _ => files_of s' = files_of s /\ forall f i, pc_of r' <> PWrite f i
   end.
 Proof.
-  intros (J1 & J2 & J3 & J4) H. unfold pstep, after_chunk, lookup_fixed, acquire_step in H.
+  intros (J1 & J2 & J3 & J4) H. unfold pstep, after_chunk, lookup_fixed, acquire_step, remember, within_for, memo_written in H.
   destruct (pc_of r) eqn:Epc; try discriminate J1; cbn [pop_cur] in J3.
   all: try (case_step H; unfold Jcur; simp_sh; rewrite ?Epc;
             (split; [split; [reflexivity| split; [intros ? ? ?; discriminate|]]
@@ -957,17 +1022,20 @@ Definition lock_exclusive_stmt (c : cfg) (ks : list kind) : Prop :=
     nth_error (procs (run c (init t ks) evs)) q = Some rq ->
     holding (pc_of rp) = true -> holding (pc_of rq) = true -> p = q.
 
-Lemma fixed_no_torn_stmt c ks : forallb is_fixed_kind ks = true -> no_torn_visible_stmt c ks.
-Proof. intros Hk t evs f x. apply fixed_no_torn_visible. exact Hk. Qed.
+Lemma fixed_no_torn_stmt c ks :
+  cleanup_outside_lock c = false -> forallb is_fixed_kind ks = true -> no_torn_visible_stmt c ks.
+Proof. intros Hc Hk t evs f x. apply fixed_no_torn_visible; assumption. Qed.
 
 Lemma fixed_lock_stmt c ks :
-  unlink_on_release c = false -> forallb is_fixed_kind ks = true -> lock_exclusive_stmt c ks.
-Proof. intros Hu Hk t evs p q rp rq. apply fixed_lock_exclusive; assumption. Qed.
+  unlink_on_release c = false -> cleanup_outside_lock c = false ->
+  forallb is_fixed_kind ks = true -> lock_exclusive_stmt c ks.
+Proof. intros Hu Hc Hk t evs p q rp rq. apply fixed_lock_exclusive; assumption. Qed.
 
-Lemma fixed_load_stmt c ks : forallb is_fixed_kind ks = true -> load_succeeds_stmt c ks.
+Lemma fixed_load_stmt c ks :
+  cleanup_outside_lock c = false -> forallb is_fixed_kind ks = true -> load_succeeds_stmt c ks.
 Proof.
-  intros Hk t evs p r v o Hr Hkind Hv Hpc.
-  destruct (fixed_inv_run c evs _ (fixed_inv_init c t ks Hk)) as [_ HJ].
+  intros Hc Hk t evs p r v o Hr Hkind Hv Hpc.
+  destruct (fixed_inv_run c evs _ (fixed_inv_init c t ks Hc Hk)) as (_ & _ & HJ).
   destruct Hkind as [Hkind|Hkind].
   - (* a KLoad process cannot exist in a repaired world: its pc would not be a repaired one *)
     exfalso. clear HJ Hpc.
@@ -997,8 +1065,8 @@ Qed.
 
 (* ================================================= refuting witnesses === *)
 
-Definition c2 : cfg := mkCfg 2 2 18 3 false.   (* time unit: 100 s *)
-Definition c2u : cfg := mkCfg 2 2 18 3 true.   (* the same with "remove the lock file on release" *)
+Definition c2 : cfg := mkCfg 2 2 18 3 false false false.   (* time unit: 100 s *)
+Definition c2u : cfg := mkCfg 2 2 18 3 true false false.   (* the same with "remove the lock file on release" *)
 Definition t0 : nat := 50.
 
 (* F2: a process is killed inside the in-place copy of file 1; the next load of version 1
@@ -1129,6 +1197,61 @@ Proof.
   specialize (H t0 ev_unlink 1 2 r1 r2 H1 H2 Hh1 Hh2). discriminate H.
 Qed.
 
+(* ANTI-PATTERN: "remove leftover *.tmp files" before taking the lock.  Two populators, nobody
+   killed: both found the folder empty; P0 holds the lock and is between its temporary copy of file 0
+   and the rename; P1 does its clean-up (outside the lock) and removes P0's in-flight temporary
+   file; P0's os.replace raises FileNotFoundError, which escapes load_schema_version. *)
+Definition c2c : cfg := mkCfg 2 2 18 3 false true false.
+Definition ev_cleanup : list event := [Run 0; Run 1] ++ runs 0 6 ++ [Run 1] ++ runs 0 2.
+
+Lemma cleanup_witness :
+  let w := run c2c (init t0 [KLoadFixed 1; KLoadFixed 1]) ev_cleanup in
+  no_crash ev_cleanup /\ outcome_of w 0 = Some (OFail FFileNotFound) /\ locks (sh w) = [].
+Proof. split; [repeat constructor|]. vm_compute. split; reflexivity. Qed.
+
+(* the same schedule without the clean-up step: P0 is simply two operations further *)
+Lemma cleanup_contrast :
+  let w := run c2 (init t0 [KLoadFixed 1; KLoadFixed 1]) (ev_cleanup ++ runs 0 12) in
+  outcome_of w 0 = Some OLoaded.
+Proof. vm_compute. reflexivity. Qed.
+
+Lemma load_succeeds_cleanup_refuted :
+  exists c ks, forallb is_fixed_kind ks = true /\ cleanup_outside_lock c = true /\
+               ~ load_succeeds_stmt c ks.
+Proof.
+  exists c2c, [KLoadFixed 1; KLoadFixed 1]. split; [reflexivity|]. split; [reflexivity|]. intro H.
+  specialize (H t0 ev_cleanup 0).
+  remember (run c2c (init t0 [KLoadFixed 1; KLoadFixed 1]) ev_cleanup) as w eqn:Ew.
+  destruct (nth_error (procs w) 0) as [r|] eqn:Er.
+  - assert (Hk : kind_of r = KLoadFixed 1 /\ pc_of r = Done (OFail FFileNotFound)).
+    { subst w. vm_compute in Er. inversion Er. split; reflexivity. }
+    destruct Hk as [Hk Hpc].
+    specialize (H r 1 (OFail FFileNotFound) eq_refl (or_intror Hk) ltac:(vm_compute; lia) Hpc).
+    discriminate H.
+  - subst w. vm_compute in Er. discriminate Er.
+Qed.
+
+(* ANTI-PATTERN: the last-update time memoised per OS process.  OS process 7 refreshes at time 50
+   (calls 0 and 2 are both its calls); more than the interval later another process refreshes at
+   70; one time unit later process 7 tries again: its memo still says 50, it is NOT skipped and
+   goes to the network although the shared stamp is one unit old. *)
+Definition c2m : cfg := mkCfg 2 2 18 3 false false true.
+Definition ev_memo : list event := runs 0 4 ++ [Tick 20] ++ runs 1 4 ++ [Tick 1] ++ runs 2 3.
+Definition ks_memo : list kind := [KRefreshOf 7; KRefreshFixed; KRefreshOf 7].
+
+Lemma memo_witness :
+  let w := run c2m (init t0 ks_memo) ev_memo in
+  stamp (sh w) = StampAt 70 /\ clock (sh w) = 71 /\ netreqs (sh w) = 3 /\
+  exists r, nth_error (procs w) 2 = Some r /\ nreq r = 1 /\ cache_err r = false.
+Proof. vm_compute. repeat split; try reflexivity. eexists. repeat split; reflexivity. Qed.
+
+(* the code as it is / repaired (no memo): same schedule, the third call is skipped, no request *)
+Lemma memo_contrast :
+  let w := run c2 (init t0 ks_memo) ev_memo in
+  stamp (sh w) = StampAt 70 /\ netreqs (sh w) = 2 /\ outcome_of w 2 = Some OSkipped /\
+  exists r, nth_error (procs w) 2 = Some r /\ nreq r = 0 /\ cache_err r = true.
+Proof. vm_compute. repeat split; try reflexivity. eexists. repeat split; reflexivity. Qed.
+
 (* ---------------------------------------------------------- non-vacuity *)
 
 (* two loaders of the current code interleaved step by step, nobody killed: both finish *)
@@ -1186,7 +1309,7 @@ Lemma fmeasure_decr c p s r s' r' :
   lf_pc (pc_of r) = true -> 0 < fmeasure c r -> pstep c p s r = (s', r') ->
   fmeasure c r' < fmeasure c r.
 Proof.
-  intros Hl Hm H. unfold pstep, after_chunk, lookup_fixed, acquire_step in H. unfold fmeasure in *.
+  intros Hl Hm H. unfold pstep, after_chunk, lookup_fixed, acquire_step, remember, within_for, memo_written in H. unfold fmeasure in *.
   destruct (pc_of r) eqn:Epc; try discriminate Hl; try lia;
     case_step H; simp_sh; rewrite ?Epc; unfold per_file in *;
     repeat match goal with
@@ -1211,7 +1334,7 @@ Qed.
 
 Lemma pstep_not_dead c p s r : pc_of r <> Dead -> pc_of (snd (pstep c p s r)) <> Dead.
 Proof.
-  intro Hd. destruct r as [k x tr po ce tt dd]. unfold pstep, after_chunk, lookup_fixed, acquire_step. simp_sh.
+  intro Hd. destruct r as [k x tr po ce tt dd nr]. unfold pstep, after_chunk, lookup_fixed, acquire_step, remember, within_for, memo_written. simp_sh.
   destruct x; try contradiction;
     repeat match goal with
            | |- context [if ?b then _ else _] => destruct b
@@ -1274,13 +1397,14 @@ Qed.
    that is scheduled at least [load_bound c] times has returned the bundled
    schema. *)
 Lemma fixed_load_terminates c t ks evs p v :
+  cleanup_outside_lock c = false ->
   forallb is_fixed_kind ks = true -> nth_error ks p = Some (KLoadFixed v) -> v < nfiles c ->
   never_killed p evs -> load_bound c <= count_run p evs ->
   outcome_of (run c (init t ks) evs) p = Some OLoaded.
 Proof.
-  intros Hk Hp Hv Hn Hb.
+  intros Hc Hk Hp Hv Hn Hb.
   destruct (fixed_load_terminates_gen c p evs (init t ks) (start (KLoadFixed v)) v) as (r' & Hr' & Hpc); auto.
-  - apply fixed_inv_init. exact Hk.
+  - apply fixed_inv_init; assumption.
   - apply lf_inv_init.
   - simpl. rewrite nth_error_map, Hp. reflexivity.
   - simpl. discriminate.
